@@ -41,6 +41,7 @@ func propC01(c *Ctx) {
 	c.ruleLockReentry()
 	c.ruleC14CycleGuard()
 	c.ruleCursorReadBounds()
+	c.ruleRegexExampleProbed("C01-REGEX-EXAMPLE-PROBED")
 }
 
 // ---------- helpers: which functions are (inside) reachable declared functions ----------
@@ -653,7 +654,54 @@ func (c *Ctx) guardedInCallers(f *Fn, base ast.Expr, site ast.Node, cfgs map[*Fn
 
 func (c *Ctx) ruleRecoverDiscipline() {
 	r := c.R
-	r.Rule("C01-RECOVER-RESULT", "a deferred recover() converts the panic into the function's error only if it assigns NAMED results of the enclosing function: every assignment inside `if r := recover(); r != nil {...}` targets a named result, and an error-like result is among them", 2)
+	r.Rule("C01-RECOVER-RESULT", "a deferred recover() converts the panic into the function's error only if it assigns NAMED results of the enclosing function: every assignment inside `if r := recover(); r != nil {...}` targets a named result, and an error-like result is among them; and every call of recover() in the library stands directly in the body of a function literal that is deferred (as the argument of a deferred call it runs when the defer statement is executed, before anything can panic)", 2)
+	// placement of every recover()
+	for _, f := range c.libFns() {
+		nrec := 0
+		inspectWithStack(f.Decl.Body, func(n ast.Node, stack []ast.Node) bool {
+			call, ok := n.(*ast.CallExpr)
+			if !ok || len(call.Args) != 0 {
+				return true
+			}
+			id, ok := call.Fun.(*ast.Ident)
+			if !ok || id.Name != "recover" {
+				return true
+			}
+			if _, isB := f.Pkg.TypesInfo.Uses[id].(*types.Builtin); !isB {
+				return true
+			}
+			nrec++
+			placed := false
+			for i := len(stack) - 1; i >= 0; i-- {
+				if fl, isLit := stack[i].(*ast.FuncLit); isLit {
+					if i >= 2 {
+						if oc, isCall := stack[i-1].(*ast.CallExpr); isCall && oc.Fun == ast.Expr(fl) {
+							if _, isDefer := stack[i-2].(*ast.DeferStmt); isDefer {
+								placed = true
+							}
+						}
+					}
+					break
+				}
+			}
+			if !placed {
+				// directly in the body of a declared function that is itself deferred somewhere
+				inLit := false
+				for _, a := range stack {
+					if _, isLit := a.(*ast.FuncLit); isLit {
+						inLit = true
+					}
+				}
+				if !inLit && c.deferredSomewhere(f.Obj) {
+					placed = true
+				}
+			}
+			if !placed {
+				r.Bad("C01-RECOVER-RESULT", fmt.Sprintf("%s | recover() #%d placement", f.Name(), nrec), "recover() is not called by the deferred function itself (it is an argument of the deferred call, or sits in a nested or plain function): it returns nil at once and the panic it was meant to stop goes through", c.pos(call.Pos()))
+			}
+			return true
+		})
+	}
 	for _, f := range c.libFns() {
 		fl, ok := hasDeferredRecover(f)
 		if !ok {
@@ -1722,10 +1770,24 @@ func (c *Ctx) ruleDepRawPanic(rule string, buildReach map[*ssa.Function]bool) {
 			if !ok {
 				continue
 			}
+			// recover() has an effect only when the deferred function itself calls it: in the body of the function
+			// literal that is deferred (an argument of the deferred call is evaluated when the defer statement runs)
+			fl, isLit := d.Call.Fun.(*ast.FuncLit)
+			if !isLit {
+				if c.directRecoverFns()[deferCallee(c, d)] {
+					return true
+				}
+				continue
+			}
 			found := false
-			ast.Inspect(d.Call, func(n ast.Node) bool {
-				if id, ok := n.(*ast.Ident); ok && id.Name == "recover" {
-					found = true
+			ast.Inspect(fl.Body, func(n ast.Node) bool {
+				if _, nested := n.(*ast.FuncLit); nested {
+					return false
+				}
+				if call, ok := n.(*ast.CallExpr); ok {
+					if id, ok := call.Fun.(*ast.Ident); ok && id.Name == "recover" && len(call.Args) == 0 {
+						found = true
+					}
 				}
 				return true
 			})
@@ -3874,4 +3936,54 @@ func (c *Ctx) ruleCursorReadBounds() {
 	if ahead == 0 {
 		r.Ok("C01-CURSOR-READ-BOUNDS", "package scanner", fmt.Sprintf("%d indexed reads of the input, none ahead of the cursor", n), "")
 	}
+}
+
+// directRecoverFns: the declared library functions whose own body (outside function literals) calls recover().
+func (c *Ctx) directRecoverFns() map[*types.Func]bool {
+	if c.recoverFns != nil {
+		return c.recoverFns
+	}
+	c.recoverFns = map[*types.Func]bool{}
+	for _, f := range c.libFns() {
+		ast.Inspect(f.Decl.Body, func(n ast.Node) bool {
+			if _, isLit := n.(*ast.FuncLit); isLit {
+				return false
+			}
+			if call, ok := n.(*ast.CallExpr); ok && len(call.Args) == 0 {
+				if id, ok := call.Fun.(*ast.Ident); ok && id.Name == "recover" {
+					if _, isB := f.Pkg.TypesInfo.Uses[id].(*types.Builtin); isB {
+						c.recoverFns[f.Obj] = true
+					}
+				}
+			}
+			return true
+		})
+	}
+	return c.recoverFns
+}
+
+// deferCallee: the declared function a defer statement calls (nil for a function literal or a value).
+func deferCallee(c *Ctx, d *ast.DeferStmt) *types.Func {
+	for _, f := range c.libFns() {
+		if f.Decl.Pos() <= d.Pos() && d.End() <= f.Decl.End() {
+			return callee(f.Pkg, d.Call)
+		}
+	}
+	return nil
+}
+
+// deferredSomewhere: some defer statement of the library calls g.
+func (c *Ctx) deferredSomewhere(g *types.Func) bool {
+	found := false
+	for _, f := range c.libFns() {
+		ast.Inspect(f.Decl.Body, func(n ast.Node) bool {
+			if d, ok := n.(*ast.DeferStmt); ok {
+				if cal := callee(f.Pkg, d.Call); cal != nil && cal.Origin() == g.Origin() {
+					found = true
+				}
+			}
+			return true
+		})
+	}
+	return found
 }
